@@ -1889,6 +1889,110 @@ AST_SHAPES = [
 ]
 
 
+def ast_doc(rng):
+    """A random sugar-rich grammar document for C10 (same record format as random_doc): every
+    terminal except the punctuation carries content, rules refer only to later rules, symbols
+    get repetition operators (with separators), names and ?= flags."""
+    terms = [dict(name="Ta", str="", re="a\\d*"), dict(name="Tb", str="", re="b\\d*"), dict(name="Tc", str="", re="c\\d*"),
+             dict(name="Num", str="", re="\\d+"), dict(name="Comma", str=","), dict(name="Semi", str=";")]
+    nr = rng.randint(1, 3)
+    names = ["R%d" % i for i in range(nr)]
+    rules = []
+    sep_of = {}
+    for ri, n in enumerate(names):
+        alts = []
+        for ai in range(rng.choice([1, 1, 2, 2, 3])):
+            syms = []
+            for _ in range(rng.randint(1, 4)):
+                c = rng.random()
+                if c < 0.6:
+                    x = dict(ref=rng.choice(["Ta", "Tb", "Tc", "Num"]), str=False, op="", sep="")
+                elif c < 0.75:
+                    x = dict(ref=rng.choice(["Comma", "Semi"]), str=False, op="", sep="")
+                else:
+                    later = names[ri + 1:]
+                    x = dict(ref=rng.choice(later) if later else rng.choice(["Ta", "Num"]), str=False, op="", sep="")
+                if rng.random() < 0.35:
+                    x["op"] = rng.choice(["?", "*", "+"])
+                    if x["op"] in "*+":
+                        # one separator per repeated symbol in a document (recorded finding
+                        # C09-F1: uses with different separators share a helper rule)
+                        if x["ref"] not in sep_of:
+                            sep_of[x["ref"]] = rng.choice(["Comma", "Semi", "Tc"]) if rng.random() < 0.4 else ""
+                        x["sep"] = sep_of[x["ref"]]
+                if rng.random() < 0.25:
+                    used = {y.get("name") for y in syms}
+                    nm_ = rng.choice([n_ for n_ in ("a", "b", "val", "left") if n_ not in used] or [""])
+                    if nm_:
+                        x["name"] = nm_
+                        x["bool"] = rng.random() < 0.3
+                syms.append(x)
+            m = dict(NOMETA)
+            if rng.random() < 0.2:
+                free = [k_ for k_ in ("Aa", "Bb", "Cc") if k_ not in {a_["meta"]["kind"] for a_ in alts}]
+                if free:
+                    m["kind"] = rng.choice(free)
+            alts.append(dict(syms=syms, meta=m))
+        if rng.random() < 0.15:
+            alts.append(dict(syms=[dict(ref="EMPTY", str=False, op="", sep="")], meta=dict(NOMETA)))
+        rules.append(dict(name=n, meta=dict(NOMETA), alts=alts))
+    return dict(rules=rules, terms=terms)
+
+
+def render_ast_doc(doc):
+    text = render_doc(dict(rules=doc["rules"], terms=[]))
+    lines = [l for l in text.split("\n") if l]
+    for t in doc["terms"]:
+        lines.append("%s: %s;" % (t["name"], ("'%s'" % t["str"]) if t["str"] else "/%s/" % t["re"]))
+    return "\n".join(lines) + "\n"
+
+
+def ast_doc_sentence(doc, rng):
+    """(input text, content tokens the AST must hold in order) by expanding the document from
+    its first rule; content tokens are numbered, so they are pairwise distinct."""
+    rules = {r["name"]: r for r in doc["rules"]}
+    out = []      # (text, counted)
+    n = [0]
+
+    def tok(name, counted):
+        n[0] += 1
+        if name == "Comma":
+            out.append((",", False))
+        elif name == "Semi":
+            out.append((";", False))
+        elif name == "Num":
+            out.append((str(n[0]), counted))
+        else:
+            out.append(("%s%d" % (name[1].lower(), n[0]), counted))
+
+    def sym(ref, counted):
+        if ref == "EMPTY":
+            return
+        if ref in rules:
+            alt = rng.choice(rules[ref]["alts"])
+            for x in alt["syms"]:
+                use(x, counted)
+        else:
+            tok(ref, counted)
+
+    def use(x, counted):
+        counted = counted and not x.get("bool")
+        if x["op"] == "":
+            sym(x["ref"], counted)
+        elif x["op"] == "?":
+            if rng.random() < 0.6:
+                sym(x["ref"], counted)
+        else:
+            k = rng.choice([0, 1, 2, 3]) if x["op"] == "*" else rng.choice([1, 1, 2, 3])
+            for i in range(k):
+                if i > 0 and x["sep"]:
+                    tok(x["sep"], counted)
+                sym(x["ref"], counted)
+    sym(doc["rules"][0]["name"], True)
+    return (" ".join(t for t, c in out), [t for t, c in out if c and t not in (",", ";")],
+            [t for t, c in out if t not in (",", ";")])
+
+
 def stage_ast(work, tier, seed):
     """C10 + C11: generated parser + generated actions (default builder) for the
     shape space x settings: rustc must accept them (C11) and the value returned must
@@ -1943,6 +2047,23 @@ def stage_ast(work, tier, seed):
                           "settings": dict(st, builder="default"), "inputs": inputs, "nones": None,
                           "table": None, "extra_mods": [], "combo": 0, "sentences_only": True,
                           "cyclic": G.is_cyclic(g)})
+    # sugar-rich documents with numbered content tokens: the sentence generator knows which
+    # tokens the AST must hold (C10) for repetitions, separators, optionals, names and ?= flags
+    rnga = random.Random(seed * 71 + 13)
+    for i in range(120 if tier == "quick" else 1500):
+        doc = ast_doc(rnga)
+        text = render_ast_doc(doc)
+        sents = [ast_doc_sentence(doc, rnga) for _ in range(3)]
+        # LR without the silent shift-over-EMPTY preference: a grammar that needs it is not the
+        # language of the document any more (that is C05's business)
+        for st in (dict(algo="lr", pse=False), dict(algo="glr")) if i % 3 == 0 else (dict(algo="lr", pse=False),):
+            k += 1
+            insts.append({"name": "a%d" % k, "shape": "sugar:%d" % i, "grammar": text,
+                          "settings": dict(st, builder="default"), "inputs": [x[0] for x in sents],
+                          "wants": [x[1] for x in sents], "alls": [x[2] for x in sents],
+                          "cyclic": G.text_is_cyclic(text),
+                          "nones": None, "table": None, "extra_mods": [],
+                          "combo": 0, "sentences_only": True})
     # generated documents of the grammar language (compile check only: no inputs)
     rngd = random.Random(seed * 53 + 11)
     gcombos = [dict(algo="lr"), dict(algo="glr"), dict(algo="lr", tt="rn"), dict(algo="glr", loc_info=True),
@@ -1996,7 +2117,9 @@ def stage_ast(work, tier, seed):
         if inst["settings"]["builder"] != "default" or inst["table"] is None:
             continue
         for j, (inp, out) in enumerate(zip(inst["inputs"], r["runs"])):
-            if inst["shape"].startswith("corpus:"):
+            if "wants" in inst:
+                want = inst["wants"][j]
+            elif inst["shape"].startswith("corpus:"):
                 want = inp.split()
             else:
                 want = _re.findall(r"\d+|[a-z]+", inp.split("//")[0] + " " + " ".join(x.split("\n", 1)[1] if "\n" in x else ""
@@ -2017,6 +2140,7 @@ def stage_ast(work, tier, seed):
                 body = body.split(" ", 2)[2] if body.count(" ") >= 2 else ""
             got = _re.findall(r'"((?:[^"\\]|\\.)*)"', body) if ok else []
             recs.append({"id": iid, "input": inp, "res": "ok" if ok else out[:120], "want": want, "got": got,
+                         "all": inst["alls"][j] if "alls" in inst else want,
                          "wnone": inst["nones"][j] if inst["nones"] else -1, "gnone": len(_re.findall(r"\bNone\b", body))})
     rp = work.path("ast", "recs.ndjson")
     with open(rp, "w") as f:
